@@ -10,4 +10,8 @@ if [ ! -x $V/bin/python ] || ! $V/bin/python -c "import z3, cvc5, sympy, jax" 2>
   PIP_NO_INDEX=1 /venv/bin/python -m pip install -q --no-index --find-links /opt/veriftools/wheels --target $SP z3-solver cvc5 sympy jsonschema 2>&1 | grep -v WARNING || true
   echo "import site; site.addsitedir('/venv/lib/python3.12/site-packages')" > $SP/zz_repo_venv.pth
 fi
+# native helper: caching arena allocator (see native/arena_cache.c)
+if [ ! -f $V/arena_cache.so ] || [ native/arena_cache.c -nt $V/arena_cache.so ]; then
+  (cc -O2 -shared -fPIC -o $V/arena_cache.so native/arena_cache.c || clang -O2 -shared -fPIC -o $V/arena_cache.so native/arena_cache.c) 2>/dev/null || echo "warning: arena_cache.so not built (checks still work, slower)"
+fi
 $V/bin/python -c "import z3, cvc5, sympy, jax; print('venv ok: z3', z3.get_version_string(), 'jax', jax.__version__)"
